@@ -141,7 +141,7 @@ class Gen:
             elif x < 0.71 and in_loop:
                 out.append({"t": "loopidx"})
             elif x < 0.83 and depth < 3:
-                out.append({"t": "try",
+                out.append({"t": "try", "exc": r.choice(("all", "all", "ctx", "ctx_tuple", "ctx_as", "bare_all")),
                             "body": self.gen_body(defs, depth + 1, in_loop, aware, blocks and depth < 1, includes, allow_self=allow_self, nmax=3, ccall_ok=ccall_ok),
                             "handler": [{"t": "text", "s": "H%d" % self.cid()}]})
                 # witnesses after an abandoned construct
@@ -271,7 +271,10 @@ def emit_node(n):
     if t == "for":
         return "\\\n%% for x%d in it(%d, %d, %s):\n%s\\\n%% endfor\n" % (n["v"], n["i"], n["n"], n.get("c"), emit_nodes(n["body"]))
     if t == "try":
-        return "\\\n% try:\n" + emit_nodes(n["body"]) + "\\\n% except Exception as e:\n" + emit_nodes(n["handler"]) + "\\\n% endtry\n"
+        # the class of a handler may come from the render data (boomcls), with or without an `as` target
+        clause = {"all": "Exception as e", "bare_all": "Exception", "ctx": "boomcls", "ctx_tuple": "(LookupError, boomcls)",
+                  "ctx_as": "boomcls as e"}[n.get("exc", "all")]
+        return "\\\n% try:\n" + emit_nodes(n["body"]) + "\\\n% except " + clause + ":\n" + emit_nodes(n["handler"]) + "\\\n% endtry\n"
     if t == "call":
         args = ("p(%d)" % n["arg"]) if n.get("arg") is not None else ""
         if n["via"] == "capture":
@@ -476,7 +479,7 @@ class Harness:
         return self._real_render(placement, fault, sink_fail, undef)
 
     def _real_render(self, placement, fault, sink_fail=None, undef=False):
-        data = {} if undef else {"zz": "ZZ"}
+        data = {"boomcls": c13rt.Boom} if undef else {"zz": "ZZ", "boomcls": c13rt.Boom}
         """-> dict(status=ok|raised, text=..., exc=...) plus state observations for render_context"""
         lk, real_get = self.lookup_for(placement)
         self.reset_caches(real_get)
@@ -525,7 +528,7 @@ class Harness:
         # the Template can be rendered again with correct results
         c13rt.ST.reset(None)
         try:
-            out["second"] = t.render(zz="ZZ") if placement != "render_context" else self._second_ctx(t)
+            out["second"] = t.render(zz="ZZ", boomcls=c13rt.Boom) if placement != "render_context" else self._second_ctx(t)
         except Exception as e:
             out["second"] = "raised %s: %s" % (type(e).__name__, str(e)[:100])
         return out
@@ -534,7 +537,7 @@ class Harness:
         from mako.runtime import Context
 
         s = Sink()
-        t.render_context(Context(s, zz="ZZ"))
+        t.render_context(Context(s, zz="ZZ", boomcls=c13rt.Boom))
         return s.getvalue()
 
     # ---- the enumeration
